@@ -29,7 +29,7 @@ import (
 )
 
 var behaviours = []string{"honest-with-key", "honest-with-key", "honest-without-key", "other-key", "flipped-data", "empty-data", "previous-challenge", "replay-signature", "garbage-reply", "wrong-type-reply", "empty-signature", "wrong-format", "failure", "close", "truncated-signature"}
-var dirStates = []string{"pub", "pub", "bare", "both-same", "both-different", "none", "unparsable", "empty-file", "other-users-key", "right-key-other-name"}
+var dirStates = []string{"pub", "pub", "bare", "both-same", "both-different", "none", "unparsable", "empty-file", "other-users-key", "right-key-other-name", "other-user-dotted-name", "other-user-dotted-name"}
 
 type runRec struct {
 	Behaviour string `json:"agent_behaviour"`
@@ -176,7 +176,7 @@ func sequence(r *ev.Run, c *ev.Case, seqNo int, mon *chalMon) {
 		logName := gsrig.LogName(rng)
 		rec := runRec{Behaviour: beh, Dir: dir, KeyType: user.Name, LogName: logName}
 		// directory
-		for _, f := range []string{logName, logName + ".pub"} {
+		for _, f := range []string{logName, logName + ".pub", logName + ".doe", logName + ".pub.bak", logName + "-2.pub"} {
 			kd.Delete(f)
 		}
 		registered := map[string]ssh.PublicKey{}
@@ -205,6 +205,11 @@ func sequence(r *ev.Run, c *ev.Case, seqNo int, mon *chalMon) {
 		case "other-users-key":
 			kd.Write(logName+".pub", line(other))
 			registered[string(other.Pub.Marshal())] = other.Pub
+		case "other-user-dotted-name":
+			// files of OTHER users whose names merely start with this login name: <login>.doe, <login>.pub.bak, <login>.key
+			kd.Write(logName+".doe", line(other))
+			kd.Write(logName+".pub.bak", line(other))
+			kd.Write(logName+"-2.pub", line(other))
 		case "right-key-other-name":
 			kd.Write(logName+"x.pub", line(user))
 			kd.Write("x"+logName, line(user))
